@@ -13,6 +13,18 @@ CHECKS = {
  "C03": ("exploration", "runtime monitor: scoping-stress programs vs reference frame chains + post-run closure battery",
          "Random deep nests over a 3-name pool with closures passed, returned, re-pointed and called after their creator returned, dynamic-scope canaries, and a battery calling every global function after the program; judged by the reference evaluator's lexical frame chains.",
          "Trusted: reference evaluator; non-triviality measured by the reference (escaped closure calls, shadowing, repeated activations).", "DESIGN.md §4.C03"),
+ "C04": ("exploration", "runtime monitor: rest-state invariant at quiescent points (hook accessor), per-call balance via public call hooks, together-vs-separately twin runs, idle-growth history",
+         "After every successful evaluation of generated programs and of the declaration surface the four VM stack depths must be back at rest; every call seen by the pre/post call hooks must replace its arguments by one result; the same forms evaluated one at a time in a twin interpreter must agree (real code on both sides); empty input must return nil; a long-lived interpreter serving hundreds of mixed evaluations must keep a constant depth vector.",
+         "Trusted: the depth accessor of the verif hook file; balance of failing evaluations is C05's job; instruction-buffer growth is recorded, not judged.", "DESIGN.md §4.C04"),
+ "C05": ("fault_enumeration", "runtime fault injection at every k-th host-function call (error and Go panic), every static point (compile error), parse errors and (thorough) every VM instruction; reference-model state + follow-up battery",
+         "For each generated program every dynamic execution of the fault point is failed in turn (both failure kinds), including failures absorbed by a host callback that re-enters the VM through Apply; afterwards error-returned, trace prefix, rest state and a follow-up battery are judged against the reference evaluator's state after the same failure. Thorough adds one run per VM instruction index of short programs.",
+         "Trusted: reference evaluator for the state after a failure; for compile/instruction faults only model-free oracles (error returned, rest state, prefix trace, generic battery).", "DESIGN.md §4.C05"),
+ "C09": ("exploration", "runtime monitor: stack high-water marks from the VM step hook over growing depth + twin/reference comparison of every tail-context composition",
+         "All compositions of the nine tail contexts to depth 2 (quick) / 3 (thorough) x seven bodies are run at depths up to 10^4 (10^5/10^6 thorough); the high-water marks of all four stacks sampled by the step hook must not depend on the depth, and value, effects and what earlier closures observe must equal the de-optimised twin and the reference evaluator.",
+         "Constant space is established only for the explored depths and shapes (exhaustive to the stated composition depth).", "DESIGN.md §4.C09"),
+ "C16": ("exploration", "runtime monitor: generated programs with lazy/strict/variadic formals over all call routes vs reference evaluator with memoising thunks; strict-formal probes",
+         "Random programs mixing lazy, strict, closure-valued and variadic formals, called by name, alias, parameter, computed callee, apply, map, recursion and tail calls, with effectful arguments; the reference evaluator decides how often and in which environment each argument is evaluated; every function traces its strict formals so an unevaluated argument in a strict position is visible.",
+         "Trusted: reference evaluator's thunk model; substitute compared only where source printing is modelled.", "DESIGN.md §4.C16"),
 }
 
 NA_REASON = {}
